@@ -73,7 +73,7 @@ def gen_shape(rng, N, cap=6000):
 
 
 def cases(rng, tier):
-    mult = {"quick": 1, "thorough": 15, "search": 5}[tier]
+    mult = {"quick": 2, "thorough": 15, "search": 5}[tier]
     out = []
 
     def common():
